@@ -6,6 +6,7 @@ use cosmwasm_std::Uint128;
 use serde_json::{json, Value};
 
 mod hub;
+mod raw;
 
 fn u128_of(v: &Value) -> u128 {
     match v {
@@ -48,6 +49,8 @@ fn dispatch(v: &Value) -> Value {
     match kind {
         "calc_delegations" | "calc_undelegations" => kernels(kind, v),
         "hub" => hub::run(v),
+        "raw" => raw::run(v),
+        "canonicalize" => raw::canonicalize(v),
         _ => json!({"error": format!("unknown scenario kind {}", kind)}),
     }
 }
